@@ -137,7 +137,9 @@ int fam_fault(const vh_args_t *a) {
     vh_raw("{\"e\":\"fscn\",\"scn\":\"%s\",\"n\":%ld,\"clean\":\"%c\",\"case\":%ld}", s->name, n, f0, idx);
     if (f0 != 'R') { CTX->nev++; continue; }
     for (long i = 1; i <= n; i++) {
+      dummy = -1;
       int fate = run_child(s, i, &dummy, &sig, seed);
+      if (fate == 'R' && dummy >= 0 && dummy < i) fate = 'N';   /* returned after fewer than i requests: nothing failed in this run */
       vh_raw("{\"e\":\"fault\",\"scn\":\"%s\",\"i\":%ld,\"n\":%ld,\"fate\":\"%c\",\"sig\":%d,\"case\":%ld}", s->name, i, n, fate, sig, idx);
       CTX->nev++;
     }
